@@ -197,6 +197,14 @@ def describe(t):
 # & and the source of - must be to stay clear of the known defects D1/D2); "any" trees may
 # overlap (unions, wide buffers): they appear at the top and under ~ / flatten only.
 
+def window_dependent(t):
+    """does the tree yield fragments whose extent depends on the query window (gaps of a complement,
+    remainders of a difference)?"""
+    if t["op"] in ("inv", "flatten", "sub"):
+        return True
+    return any(window_dependent(t[k]) for k in ("l", "r", "s") if k in t)
+
+
 class LGen:
     def __init__(self, rng, a):
         self.rng, self.a = rng, a
@@ -272,7 +280,13 @@ class LGen:
         if op in ("inv", "flatten"):
             return {"op": op, "s": self.anytree(depth - 1)}
         if op == "filt":
-            return {"op": "filt", "s": self.dtree(depth - 1), "f": self.filt()}
+            sub = self.dtree(depth - 1)
+            if window_dependent(sub):
+                # a filter over a complement / difference judges fragments cut at the query bounds (C05 and
+                # C18 leave them out by design): an open-ended and a bounded query then see different
+                # fragments, and "the first n of a long bounded query" has no fixed meaning
+                return sub
+            return {"op": "filt", "s": sub, "f": self.filt()}
         p = self.per()                                  # buffer with slack: stays non-overlapping
         _, period = per_params(p)
         slack = period - p["dur"]
